@@ -53,9 +53,30 @@ fn inline_of<'a, T: DiffableStr + ?Sized>(
     (v, p)
 }
 
+/// how the line diff is constructed: 0 = diff_lines, 1 = diff_lines with
+/// newline_terminated(false), 2 = caller-split lines through diff_slices
 fn check_diff<T: DiffableStr + ?Sized>(alg: Algorithm, old: &T, new: &T, kind: &str) -> Result<(u64, u64, u64, bool), String> {
+    let mut total = (0, 0, 0, false);
+    for construction in 0..3 {
+        let r = check_diff_with(alg, old, new, kind, construction)
+            .map_err(|e| format!("[{}] {}", ["diff_lines", "diff_lines + newline_terminated(false)", "diff_slices over caller-split lines"][construction], e))?;
+        total.0 += r.0;
+        total.1 += r.1;
+        total.2 ^= r.2.rotate_left(construction as u32);
+        total.3 |= r.3;
+    }
+    Ok(total)
+}
+
+fn check_diff_with<T: DiffableStr + ?Sized>(alg: Algorithm, old: &T, new: &T, kind: &str, construction: usize) -> Result<(u64, u64, u64, bool), String> {
     let r = subject(|| -> Result<(u64, u64, u64, bool), String> {
-        let diff = TextDiff::configure().algorithm(alg).diff_lines(old, new);
+        let lo = old.tokenize_lines();
+        let ln = new.tokenize_lines();
+        let diff = match construction {
+            0 => TextDiff::configure().algorithm(alg).diff_lines(old, new),
+            1 => TextDiff::configure().algorithm(alg).newline_terminated(false).diff_lines(old, new),
+            _ => TextDiff::configure().algorithm(alg).diff_slices(&lo, &ln),
+        };
         let mut fp = Fp::new();
         let mut expansions = 0;
         let mut segs = 0;
